@@ -10,13 +10,13 @@ PROPS = {
  'C01': dict(level='proof', sections=['bank', 'supply', 'vpn/deposit'], result_ops=MONEY_OPS + ['tx:swap'], monitors=['backed', 'supply'],
              assumptions=['configuration domain of DESIGN.md §5', 'bank/distribution modelled by hand (fee collector sweep)']),
  'C02': dict(level='proof', sections=['bank', 'vpn/deposit', 'vpn/subscription/10', 'vpn/subscription/20', 'vpn/subscription/30', 'event:PayFor', 'event:Refund', 'events'],
-             result_ops=MONEY_OPS, monitors=['escrowSplit'], uses_generated=True),
+             result_ops=MONEY_OPS, monitors=['escrowSplit'], uses_generated=True, probe=True),
  'C03': dict(level='proof', sections=[], result_ops=['begin', 'end'], monitors=['lifecycle'], halts=True),
  'C04': dict(level='proof', sections=['vpn/node/10', 'vpn/node/11', 'vpn/subscription/10', 'vpn/subscription/11', 'vpn/subscription/30', 'vpn/subscription/31',
                                       'vpn/session/10', 'vpn/session/11', 'events'], result_ops=['begin', 'end', 'tx:subCancel', 'tx:sessEnd', 'tx:nodeStatus'],
              monitors=['deadlinesFuture', 'statuses']),
  'C05': dict(level='proof', sections=['bank', 'vpn/subscription/10', 'vpn/subscription/30', 'vpn/deposit', 'events'], result_ops=['tx:nodeSubscribe', 'tx:planSubscribe'],
-             monitors=['escrowSplit'], uses_generated=True),
+             monitors=['escrowSplit'], uses_generated=True, probe=True),
  'C06': dict(level='proof', sections=['vpn/subscription/20', 'vpn/subscription/12'], result_ops=['tx:subAllocate', 'tx:sessStart'], monitors=['allocBounds', 'quotaConserved']),
  'C07': dict(level='proof', sections=None, result_ops=['*'], monitors=[]),
  'C08': dict(level='proof', sections=['vpn/subscription/34', 'vpn/session/15'], result_ops=['tx'], monitors=['statuses']),
